@@ -7,6 +7,7 @@ mod atomics;
 mod clones;
 mod ctors;
 mod deser;
+mod drops;
 mod effects;
 mod eqs;
 mod forwards;
@@ -202,6 +203,7 @@ fn main() {
     clones::emit(src, &mut out);
     gates::emit(src, &mut out);
     viewreads::emit(src, &mut out);
+    drops::emit(src, &mut out);
 
     out.push_str("\nend Lasso.Extracted\n");
     // only rewrite when changed so that lake does not rebuild dependants needlessly
